@@ -244,6 +244,16 @@ func GenPSet(model string, r *core.Rand, o genOpts) PSet {
 		bias := 0.0
 		if r.Bool(0.3) {
 			bias = r.Range(0.002, math.Min(0.5, dt/(2*k)))
+			if r.Bool(0.3) {
+				// the upper part of the range and its edges: exactly on the stability limit 2*k*bias == dt, and bias exactly 1
+				// (all weight on the inflow) where the limit allows it
+				lim := math.Min(1, dt/(2*k))
+				bias = pick(r, lim, lim, r.Range(0.002, lim))
+				if lim < 1 && r.Bool(0.3) {
+					k = dt / 2 / pick(r, 1, 1, r.Range(1, 4)) // short reaches: the limit lies at or above 1
+					bias = pick(r, 1, 1, math.Nextafter(1, 0), r.Range(0.5, 1))
+				}
+			}
 		}
 		mPow := 1.0
 		if !r.Bool(0.25) {
@@ -266,6 +276,14 @@ func GenPSet(model string, r *core.Rand, o genOpts) PSet {
 		dt := lo
 		if hi > lo {
 			dt = r.Range(lo, hi)
+			// exactly on the stability limits the property names: 2KX == dt (pure translation of the previous inflow) and
+			// dt == 2K(1-X)
+			switch r.Intn(8) {
+			case 0:
+				dt = lo
+			case 1:
+				dt = hi
+			}
 		}
 		p["K"], p["X"], p["DeltaT"] = one(K), one(X), one(dt)
 	case "Lag":
@@ -448,6 +466,12 @@ func GenPSet(model string, r *core.Rand, o genOpts) PSet {
 		p["avFines"] = one(r.Range(0, 100))
 		p["area"] = one(r.Range(1, 1e8))
 		p["maxConc"] = one(pick(r, 10, r.LogRange(1, 1e4), 1e9))
+		if r.Bool(0.12) {
+			p["maxConc"] = one(0) // the low end of its range [0,10000] (and what an unset parameter is): no fine sediment at all
+		}
+		if r.Bool(0.08) {
+			p["area"] = one(0) // the low end of the area range: nothing is generated
+		}
 		p["usleHSDRFine"] = one(r.Range(0, 100))
 		p["usleHSDRCoarse"] = one(r.Range(0, 100))
 		p["timeStepInSeconds"] = one(deltaT(r))
@@ -470,7 +494,65 @@ func GenPSet(model string, r *core.Rand, o genOpts) PSet {
 			ps[i] = one(desc.Parameters[i].Default)
 		}
 	}
+	if !o.noDefaultTies && r.Bool(0.08) {
+		// one parameter exactly on an end of the range its spec documents, where this generator draws up to (within 0.5 %
+		// of) that end anyway: continuous draws come arbitrarily close to the end but never sit on it
+		ends := rangeEndsInReach(model)
+		var cand [][2]float64
+		for i, e := range ends {
+			for _, v := range e {
+				cand = append(cand, [2]float64{float64(i), v})
+			}
+		}
+		if len(cand) > 0 {
+			ch := cand[r.Intn(len(cand))]
+			ps[int(ch[0])] = one(ch[1])
+		}
+	}
 	return ps
+}
+
+var rangeEndCache sync.Map
+
+// rangeEndsInReach: per scalar parameter, the documented range ends that lie within 0.5 % of the span that 400 draws of
+// the generator cover (parameters coupled to others excluded as in defaultsInRange).
+func rangeEndsInReach(model string) [][]float64 {
+	if v, ok := rangeEndCache.Load(model); ok {
+		return v.([][]float64)
+	}
+	desc := NewModel(model).Description()
+	lo := make([]float64, len(desc.Parameters))
+	hi := make([]float64, len(desc.Parameters))
+	for i := range lo {
+		lo[i], hi[i] = math.Inf(1), math.Inf(-1)
+	}
+	rr := core.NewRand(0x72616e6765, 0x656e6473)
+	for k := 0; k < 400; k++ {
+		ps := GenPSet(model, rr, genOpts{noDefaultTies: true})
+		for i := range ps {
+			if len(ps[i]) == 1 {
+				lo[i] = math.Min(lo[i], ps[i][0])
+				hi[i] = math.Max(hi[i], ps[i][0])
+			}
+		}
+	}
+	res := make([][]float64, len(desc.Parameters))
+	for i, p := range desc.Parameters {
+		if len(p.Dimensions) != 0 || !(lo[i] < hi[i]) || !(p.Range[0] < p.Range[1]) {
+			continue
+		}
+		if model == "Muskingum" || p.Name == "DeltaT" || p.Name == "durationInSeconds" || p.Name == "timeStepInSeconds" {
+			continue
+		}
+		span := hi[i] - lo[i]
+		for _, e := range p.Range {
+			if e >= lo[i]-0.005*span && e <= hi[i]+0.005*span {
+				res[i] = append(res[i], e)
+			}
+		}
+	}
+	rangeEndCache.Store(model, res)
+	return res
 }
 
 var defaultRangeCache sync.Map
@@ -761,6 +843,15 @@ func GenInputs(model string, r *core.Rand, T int, ps PSet) [][]float64 {
 		kf := make([]float64, T)
 		for t := range kf {
 			kf[t] = klsc[t] * r.Range(0, 1)
+		}
+		if r.Bool(0.15) {
+			// a soil without fines: the fine share of the KLSC product is zero throughout / on some days
+			all := r.Bool(0.5)
+			for t := range kf {
+				if all || r.Bool(0.4) {
+					kf[t] = 0
+				}
+			}
 		}
 		set("KLSC_Fine", kf)
 		set("CovOrCFact", uniformSeries(r, T, 0, 1))
